@@ -38,6 +38,9 @@ def corpus():
     cs.append(mk(0.0, 10.0, 0.0, 91.0, [], [], "invalid"))
     cs.append(mk(0.0, 10.0, 0.0, 1.0, [361.0], [0.0], "invalid"))
     cs.append(mk(0.0, 10.0, 0.0, 1.0, [0.0], [-90.5], "invalid"))
+    for w0 in (300.0, -60.0, 170.25, 359.0, 10.0):
+        for wd in (2.0 ** -9, 2.0 ** -12, 2.0 ** -6):
+            cs.append(mk(w0, w0 + wd, -5.0, 5.0, [w0, w0 + wd / 2, w0 + wd, w0 - 1.0, w0 + 1.0], [0.0] * 5, "narrow"))
     return cs
 
 
@@ -57,6 +60,11 @@ def generate(rng, tier):
         w = rng.randint(-180 * 8, 360 * 8) / 8.0
         if u < 0.15:
             e = w + rng.choice([360.0, -360.0, 0.0, 359.875, 360.0 - 1 / 512, 359.9970703125])
+        elif u < 0.27:
+            # very narrow (but non-degenerate) arcs, anywhere on the globe: tolerant comparisons must not mistake them for 0 or 360
+            e = w + 2.0 ** (-rng.randint(3, 14)) * rng.choice([1, 1, 1, 3])
+            if e > 360:
+                w, e = w - 1.0, e - 1.0
         else:
             e = rng.randint(-180 * 8, 360 * 8) / 8.0
         s = rng.randint(-90 * 4, 90 * 4) / 4.0
